@@ -18,9 +18,9 @@ func (c11) Technique() string {
 }
 func (c11) Runs(tier string) int {
 	if tier == "thorough" {
-		return 900000
+		return 1500000
 	}
-	return 60000
+	return 100000
 }
 func (c11) Rule() string {
 	return "world built by a seeded history (nested stacks/conditions, options, policies, mutex and read-only on random nodes); every exported method classified by reflection as declared query (statement list, Is*/Can* by pattern, Interface getters) / declared mutator / unknown; 2-4 tasks x 1-4 queries with argument synthesis, each first answered in isolation; non-trivial = at least 2 tasks were interleaved inside a query (a context switch at a configuration read or closure); distinct = hash(query multiset, schedule)"
